@@ -81,6 +81,8 @@ type Pkg struct {
 	Version     int
 	Deleted     bool
 	PeerMissing bool // the "module" build of the package imports a peer that is not installed
+	Linked      bool // node_modules/<name> is a symbolic link to ../packages/<name>-v<LinkVer> (a linked workspace package)
+	LinkVer     int
 }
 
 type Project struct {
@@ -194,6 +196,7 @@ func GenProject(g G, root string) *Project {
 		pk.SideEffects = g.n(3)
 		pk.Entry = g.n(3)
 		pk.PeerMissing = pk.Entry == 1 && g.n(6) == 0
+		pk.Linked = g.n(4) == 0
 		p.Pkgs = append(p.Pkgs, pk)
 	}
 	// import edges: module i imports from modules with larger index mostly (DAG), with
@@ -596,7 +599,31 @@ func (p *Project) RenderModule(m *Module) string {
 	return sb.String()
 }
 
+// pkgRealDir: where the files of the package live (a linked package lives outside
+// node_modules and is reached through a symbolic link).
+func pkgRealDir(pk *Pkg) string {
+	if pk.Linked {
+		return fmt.Sprintf("packages/%s-v%d", pk.Name, pk.LinkVer)
+	}
+	return pk.Dir
+}
+
+// Links returns the symbolic links of the project (path -> target), all relative.
+func (p *Project) Links() map[string]string {
+	links := map[string]string{}
+	for _, pk := range p.Pkgs {
+		if pk.Linked && !pk.Deleted {
+			up := strings.Repeat("../", strings.Count(pk.Dir, "/"))
+			links[pk.Dir] = up + pkgRealDir(pk)
+		}
+	}
+	return links
+}
+
 func (p *Project) renderPkg(pk *Pkg, files map[string]string) {
+	realPk := *pk
+	realPk.Dir = pkgRealDir(pk)
+	pk = &realPk
 	se := ""
 	switch pk.SideEffects {
 	case 1:
@@ -748,6 +775,20 @@ func (p *Project) WriteTo(d *verifsim.Disk, inPlace bool) {
 			continue
 		}
 		d.PutFile(abs, []byte(files[k]), inPlace)
+	}
+	links := p.Links()
+	lk := make([]string, 0, len(links))
+	for k := range links {
+		lk = append(lk, k)
+	}
+	sort.Strings(lk)
+	for _, k := range lk {
+		abs := p.Root + "/" + k
+		if d.Kind(abs) == "symlink" && d.LinkTarget(abs) == links[k] {
+			continue
+		}
+		d.RemoveAll(abs)
+		d.Symlink(links[k], abs)
 	}
 }
 
